@@ -311,6 +311,63 @@ impl Property for C14 {
         tier.pick(30_000, 400_000)
     }
     fn extra(&self, tier: Tier, seed: u64, obs: &mut Obs) -> Result<(), (String, serde_json::Value)> {
+        // --- calls that ended in a panic of user code (first thing in the process, before any such panic) -------
+        // battery of ordinary calls -> user-supplied interpreters panic inside every entry point (caught, as a
+        // host application would) -> the same battery again, on the same interpreters and on fresh ones
+        {
+            let mut runner = TestRunner::new(Config { rng_seed: RngSeed::Fixed(hash_of(&(seed, "c14-after-panic"))), failure_persistence: None, ..Config::default() });
+            let strat = call_strategy();
+            let mut battery: Vec<Call> = Vec::new();
+            while battery.len() < tier.pick(6_000usize, 40_000usize) {
+                let c = strat.new_tree(&mut runner).unwrap().current();
+                if c.f % NFUNCS != 10 {
+                    battery.push(c);
+                }
+            }
+            // texts the annotation pass has something to say about, through every text-level entry point
+            for (l, t) in [("fr", "le logement neuf"), ("fr", "un camion neuf"), ("fr", "du pain neuf ici"), ("fr", "l' appartement presque neuf"), ("fr", "neuf"), ("fr", "le neuf"), ("en", "o"), ("en", "the o ring"), ("en", "two o five"), ("en", "o two"), ("pt", "o carro"), ("es", "uno o dos"), ("it", "un o due"), ("de", "ein o zwei"), ("nl", "een o twee")] {
+                for f in [0u8, 1, 2, 3, 4, 6, 7, 8] {
+                    for th in [0.0f64, 10.0] {
+                        battery.push(Call { f, lang: l.to_string(), native: l.to_string(), text: t.to_string(), th_bits: th.to_bits() });
+                    }
+                }
+            }
+            let shared: Vec<Language> = LANGS.iter().map(|l| new_lang(l)).collect();
+            let before: Vec<String> = battery.iter().map(|c| perform(&shared[lang_index(&c.lang)], c)).collect();
+            let mut panics = 0u64;
+            for (li, l) in LANGS.iter().enumerate() {
+                let lg = &shared[li];
+                let p = Panicky(lg);
+                let num = spell::cardinal(l, 21, &mut Canon).join(" ");
+                for text in [format!("{} xqpanic {}", num, num), "xqpanic".to_string(), format!("{} {} xqpanic", vocab_of(l).fillers[0], num)] {
+                    let toks = tokens_of(&text);
+                    let stream: Vec<Tk> = text.split_whitespace().enumerate().map(|(i, w)| Tk::new(i, w)).collect();
+                    let lower = text.to_lowercase();
+                    let outcomes = [
+                        std::panic::catch_unwind(std::panic::AssertUnwindSafe(|| drop(replace_numbers_in_text(&text, &p, 0.0)))).is_err(),
+                        std::panic::catch_unwind(std::panic::AssertUnwindSafe(|| drop(replace_numbers_in_text(&text, &p, 10.0)))).is_err(),
+                        std::panic::catch_unwind(std::panic::AssertUnwindSafe(|| drop(text2digits(&text, &p)))).is_err(),
+                        std::panic::catch_unwind(std::panic::AssertUnwindSafe(|| drop(find_numbers(toks.iter(), &p, 0.0)))).is_err(),
+                        std::panic::catch_unwind(std::panic::AssertUnwindSafe(|| drop(find_numbers_iter(toks.iter(), &p, 0.0).count()))).is_err(),
+                        std::panic::catch_unwind(std::panic::AssertUnwindSafe(|| drop(replace_numbers_in_stream(stream.clone(), &p, 0.0)))).is_err(),
+                        std::panic::catch_unwind(std::panic::AssertUnwindSafe(|| drop(p.exec_group(lower.split_whitespace())))).is_err(),
+                    ];
+                    panics += outcomes.iter().filter(|x| **x).count() as u64;
+                }
+            }
+            obs.evaluations += 2 * battery.len() as u64;
+            obs.label("after-user-panic-battery");
+            if panics == 0 {
+                return Err(("the panicking user interpreter never panicked: the after-panic procedure is vacuous".to_string(), serde_json::json!([])));
+            }
+            for (i, c) in battery.iter().enumerate() {
+                for (what, got) in [("the same interpreter", perform(&shared[lang_index(&c.lang)], c)), ("a fresh interpreter", perform(&new_lang(&c.lang), c))] {
+                    if got != before[i] {
+                        return Err((format!("after {} caught panics of a user-supplied interpreter, call {:?} on {} returns {:?}; before them it returned {:?}", panics, c, what, got, before[i]), serde_json::to_value(vec![c.clone()]).unwrap()));
+                    }
+                }
+            }
+        }
         // --- sharing across threads --------------------------------------------------------------
         let mut runner = TestRunner::new(Config { rng_seed: RngSeed::Fixed(hash_of(&(seed, "c14-threads"))), failure_persistence: None, ..Config::default() });
         let strat = call_strategy();
